@@ -59,10 +59,20 @@ def pos_line(start, moves):
 def make_session(rng, games):
     lines = []
     n = rng.randint(3, 9)
+    last = None
     for _ in range(n):
-        start, moves = rng.choice(games)
-        moves = moves[:rng.randint(0, min(len(moves), 24))]
+        start, full, illegal = rng.choice(games)
+        if last is not None and rng.random() < 0.35:
+            # the same game again: repeated line, an extension, or a shorter list (with ucinewgame possibly in between)
+            start, full, illegal = last
+        last = (start, full, illegal)
+        cut = rng.randint(0, min(len(full), 24))
+        moves = full[:cut]
         r = rng.random()
+        if illegal and len(full) <= 24 and r < 0.12:
+            # a move that obeys the piece rules but leaves the king in check, at the end of the full list
+            lines.append(pos_line(start, full + [rng.choice(illegal)]))
+            continue
         if r < 0.2:
             # GUI style: growing prefixes of the same game
             step = rng.choice([1, 2, 3])
@@ -75,6 +85,8 @@ def make_session(rng, games):
             lines.append(pos_line(start, bad))
         elif r < 0.92:
             lines.append('ucinewgame')
+            if rng.random() < 0.6:
+                lines.append(pos_line(start, full[:rng.randint(0, min(len(full), 24))]))
         else:
             lines.append(rng.choice(['isready', 'uci', 'xyzzy', 'stop', 'position', 'position fen']))
     return lines
@@ -85,8 +97,8 @@ def load_games(seed, n):
     games = []
     for l in p.stdout.split('\n'):
         if '|' in l:
-            a, b = l.split('|', 1)
-            games.append((a, b.split()))
+            parts = l.split('|')
+            games.append((parts[0], parts[1].split(), parts[2].split() if len(parts) > 2 else []))
     return games
 
 
@@ -157,7 +169,7 @@ def run(prop, tier, seed, verdict, cov):
         e = Engine()
         try:
             for _ in range(3):
-                start, moves = r.choice(games)
+                start, moves, _ill = r.choice(games)
                 moves = moves[:r.randint(0, min(len(moves), 16))]
                 if r.random() < 0.4:
                     moves, _ = corrupt(r, moves)
